@@ -15,6 +15,9 @@ elements), dict of present components for records.
 from pyasn1.type import constraint, univ
 
 
+FIELD_KINDS = {'a': 'INTEGER', 'b': 'OCTETSTRING', 'c': 'BOOLEAN'}     # the record used by C14's presence sub-check
+
+
 def admits(c, kind, v):
     """Set-theoretic denotation, independent of pyasn1's constraint classes."""
     k = c['c']
@@ -28,7 +31,14 @@ def admits(c, kind, v):
         return all(ch in c['chars'] for ch in v)
     if k == 'withcomp':
         for name, rule in c['rules']:
-            if (name in v) != (rule == 'present'):
+            if isinstance(rule, dict):
+                # a value constraint on a field ("any other constraint object" of the documentation); only asked about records
+                # that hold the field
+                if name not in v:
+                    raise ValueError('value rule on an absent field')
+                if not admits(rule, FIELD_KINDS[name], v[name]):
+                    return False
+            elif (name in v) != (rule == 'present'):
                 return False
         return True
     if k == 'and':
@@ -70,7 +80,8 @@ def build(c, kind=None):
         return constraint.PermittedAlphabetConstraint(*list(c['chars']))
     if k == 'withcomp':
         return constraint.WithComponentsConstraint(*[
-            (name, constraint.ComponentPresentConstraint() if rule == 'present' else constraint.ComponentAbsentConstraint())
+            (name, build(rule, FIELD_KINDS[name]) if isinstance(rule, dict) else
+             constraint.ComponentPresentConstraint() if rule == 'present' else constraint.ComponentAbsentConstraint())
             for name, rule in c['rules']])
     ops = [build(x, kind) for x in c['ops']]
     if k == 'and':
